@@ -245,7 +245,10 @@ def run(ctx):
                     if "'default'" in txt and "'targets'" not in txt:
                         kinds_.add("default")
                     elif "'targets'" in txt and "'default'" not in txt and "get_ancestor" in txt and any(sym_is_call(y, "TrieCommon::value", "value") for y in sym_walk(x) if isinstance(y, tuple)):
-                        kinds_.add("target")
+                        # the longest matching route as the trie reports it: nothing between get_ancestor() and its use
+                        # discards a match (a boundary / length filter sends names to the default that a route covers)
+                        narrowed = [strip_generics(y[1]).split("::")[-1] for y in sym_walk(x) if isinstance(y, tuple) and y and y[0] == "call" and isinstance(y[1], str) and strip_generics(y[1]).split("::")[-1] in ("filter", "take_if", "and_then", "xor", "zip", "filter_map") and "get_ancestor" in repr(y[2])]
+                        kinds_.add("target" if not narrowed else f"other:a match of get_ancestor() discarded by {narrowed[0]}()")
                     else:
                         kinds_.add("other:" + sym_str(x)[:60])
                 if ok and kinds_ != {"default", "target"}:
